@@ -1547,6 +1547,15 @@ func successAlts(fn *ssa.Function) []exitAlt {
 		if idx >= 0 && definitelyNonNilErr(e.Results[idx], e.Guards) {
 			continue
 		}
+		// `return f(x)`: this exit is a success exactly when the returned error value is nil —
+		// the same knowledge `if err := f(x); err != nil { return err }; return nil` states with a branch
+		if idx >= 0 && idx < len(e.Results) {
+			if v := e.Results[idx]; !isNilConst(v) && !provablyNil(v, e.Guards) {
+				if _, isConst := v.(*ssa.Const); !isConst {
+					e.Guards = append(append([]Guard{}, e.Guards...), Guard{Cond: &ssa.BinOp{Op: token.EQL, X: v, Y: ssa.NewConst(nil, v.Type())}, Pol: true, At: e.Ret.Block()})
+				}
+			}
+		}
 		out = append(out, e)
 	}
 	return out
